@@ -68,5 +68,35 @@ Definition wrapper (d : gdir) (sp : scatterpos)
       end
   else Ok (mkW gamma x gpsis).
 
+(* ---- GroupActivityCoefficients.activity_coefficients(x, T) (lines 305-323): the "object form" on the
+        sub-system with groups, without gather / scatter ----
+     psis = self.psi(T, self._interactions.copy())          (or without .copy(): hole)
+     self._group_psis[self._group_mask] = psis[self._group_mask]
+     return group_activity_coefficients(x, self._chemgroups, self.loggammacs(self._qs, self._rs, x),
+                                        self._Qs, psis, self._chem_Qfractions, self._group_psis)        *)
+Inductive intercopy := InterCopied | InterShared.
+
+Fixpoint map3 {X Y Z W} (f : X -> Y -> Z -> W) (a : list X) (b : list Y) (c : list Z) : list W :=
+  match a, b, c with
+  | x :: a', y :: b', z :: c' => f x y z :: map3 f a' b' c'
+  | _, _, _ => []
+  end.
+(* boolean-mask assignment: masked cells are overwritten, the others keep what the buffer held *)
+Definition masked_update (buffer psis : list (list A)) (mask : list (list bool)) : list (list A) :=
+  map3 (map3 (fun b p (m : bool) => if m then p else b)) buffer psis mask.
+
+(* result, the _group_psis buffer afterwards, the _interactions table afterwards.  psi_effect is what the psi
+   kernel leaves in the array it is given (psi_modified_UNIFAC rescales it in place) *)
+Definition act_method (ic : intercopy) (psi : A -> I -> list (list A)) (psi_effect : A -> I -> I)
+    (lgc : list A -> list A -> list A -> list A)
+    (gac : list A -> list (list A) -> list A -> list A -> list (list A) -> list (list A) ->
+           list (list A) -> list A)
+    (x : list A) (T : A) (inter : I) (gpsis : list (list A)) (mask : list (list bool))
+    (qs rs Qs : list A) (chemgroups cQfs : list (list A)) : list A * list (list A) * I :=
+  let psis := psi T inter in
+  let inter' := match ic with InterCopied => inter | InterShared => psi_effect T inter end in
+  let gp := masked_update gpsis psis mask in
+  (gac x chemgroups (lgc qs rs x) Qs psis cQfs gp, gp, inter').
+
 End Wrapper.
 Arguments mkW {A}. Arguments w_gamma {A}. Arguments w_x {A}. Arguments w_gpsis {A}.
